@@ -8,7 +8,7 @@
 (* accepted; the second words with y >= j have relative length             *)
 (* (x_m + u - j)/p1: to 2^-44.                                             *)
 (***************************************************************************)
-EXTENDS Limb14, BtpeTable, H2peTable, PdTable, MtTable, ChengTable, Integers, Sequences, TLC, Json, IOUtils
+EXTENDS Limb14, BtpeTable, H2peTable, PdTable, MtTable, ChengTable, Rej64Table, Integers, Sequences, TLC, Json, IOUtils
 
 Rec == ndJsonDeserialize(IOEnv.TRACE)
 VARIABLE l
@@ -52,6 +52,12 @@ Rule == /\ Ev.res = "Ok"
                                    /\ Ev.accepted_at_zero
                                    /\ Near14(Ev.T, a.frac, 64 - 36)
                                    /\ Near14(Ev.xq, a.xq, 60 - 44)
+             \* Zipf<f64> / Zeta<f64>: for the first word the proposal is the table's x (where it is below 2^53) and the accepting second
+             \* uniform words are a prefix of the documented relative length (2^-40)
+             [] Ev.op = "rej64" -> LET a == JTab[Ev.case].us[Ev.i] IN
+                                   /\ Ev.accepted_at_zero
+                                   /\ (a.x # "-1") => (Ev.x = a.x)
+                                   /\ Near14(Ev.T, a.frac, 64 - 40)
              [] OTHER -> FALSE
 
 TInit == l = 1
